@@ -1,3 +1,563 @@
-"""placeholder, filled below"""
-def handler_call_sites(ck, rule, roles):
+"""Rule groups about the write funnel set_val: stage order, scale factor, bounds, rounding table,
+clamp roles, carrier ladder, who-may-write-codes (C01, C02, C03.R2, C05; shared with C04, C10, C17, C18)."""
+import ast
+
+from ..model import dotted, src, calls_in, kw, AnalysisError
+from ..common import (fpaths, peel, is_int_cast, actual, mkterm, mkbool, guard_assignment, same_expr, const_str,
+                      self_rename, status_key, fxp_names_in)
+from ..terms import Term, exp2, ite, NotATerm, witness
+from .. import anchors as A
+
+ROUND_TABLE = {
+    "floor": {"np.floor"},
+    "ceil": {"np.ceil"},
+    "trunc": {"np.trunc", "np.fix"},
+    "fix": {"np.trunc", "np.fix"},
+    "around": {"np.around", "np.round", "np.rint", "np.round_"},
+}
+ROUND_PRIMS = set().union(*ROUND_TABLE.values())
+
+
+def oracle_bounds():
+    s = Term.bvar("signed")
+    nw = Term.var("n_word")
+    mx = ite(s, exp2(nw - 1) - 1, exp2(nw) - 1)
+    mn = ite(s, -exp2(nw - 1), Term.const(0))
+    return mn, mx
+
+
+def _ctrl(gs):
+    return [(src(g[0])[:70], g[1]) for g in gs]
+
+
+class Stage:
     pass
+
+
+def match_pipeline(prog, f, V, roles, h, rnd, fmt, fac, problems, part=None):
+    """match V against CAST* OVF(CAST* RND(CAST* (CAST* [PART] FORMAT(val)[0]) * FACTOR(raw'))) .
+    Appends (what, construct, detail) to problems; returns dict of pieces or None."""
+    out = {}
+    e, casts0 = peel(V)
+    if not (isinstance(e, ast.Call) and prog.resolve_call(f, e) == h.qualname):
+        # is the handler somewhere inside? then something was applied after it
+        inner = [c for c in calls_in(e) if prog.resolve_call(f, c) == h.qualname]
+        if inner:
+            problems.append(("no arithmetic is applied to the value after the overflow stage",
+                             "stored value %s" % src(e)[:110], "an operation follows saturate/wrap, so the stored code can leave the format's range or differ from OVERFLOW(ROUND(v*2^n_frac))"))
+        else:
+            problems.append(("every stored value passes through the overflow stage (saturate/wrap)",
+                             "stored value without overflow handling: %s" % src(e)[:110],
+                             "on this path the code is written without clamping/wrapping and without raising flags"))
+        return None
+    out["ovf_call"] = e
+    v = actual(e, h, roles["val"])
+    out["min"] = actual(e, h, roles["min"])
+    out["max"] = actual(e, h, roles["max"])
+    if v is None or out["min"] is None or out["max"] is None:
+        problems.append(("overflow handler receives value, minimum and maximum", "call %s" % src(e)[:100], None))
+        return None
+    e2, casts1 = peel(v)
+    if any(is_int_cast(c) for c in casts1):
+        problems.append(("no narrowing cast precedes the clamp", "integer cast before the overflow stage: %s" % src(v)[:100],
+                         "a cast to a machine integer before clamping turns a huge input into garbage / the opposite bound"))
+        return None
+    if not (isinstance(e2, ast.Call) and prog.resolve_call(f, e2) == rnd.qualname):
+        inner = [c for c in calls_in(e2) if prog.resolve_call(f, c) == rnd.qualname]
+        if inner:
+            problems.append(("the overflow stage receives the rounded value unchanged", "handler argument %s" % src(e2)[:110],
+                             "an operation is applied between rounding and the overflow test"))
+        else:
+            problems.append(("every stored value is rounded by the configured rule before the overflow stage",
+                             "overflow stage fed with unrounded value: %s" % src(e2)[:110],
+                             "on this path the rounding stage is skipped or replaced, so the configured rounding mode is ignored"))
+        return None
+    out["rnd_call"] = e2
+    rv = actual(e2, rnd, [p for p in rnd.params if p != "self"][0])
+    meth = actual(e2, rnd, "method")
+    if meth is None or dotted(meth) != "self.config.rounding":
+        problems.append(("the rounding stage uses the object's configured rounding mode", "method=%s" % (src(meth) if meth is not None else "<default>"),
+                         "rounding must be method=self.config.rounding"))
+        return None
+    e3, casts2 = peel(rv)
+    if any(is_int_cast(c) for c in casts2):
+        problems.append(("no integer cast precedes rounding", "integer cast of the scaled value before rounding: %s" % src(rv)[:100],
+                         "truncates toward zero before the configured rounding is applied"))
+        return None
+    if not (isinstance(e3, ast.BinOp) and isinstance(e3.op, ast.Mult)):
+        problems.append(("the rounded quantity is value * conversion factor", "rounding argument %s" % src(e3)[:110],
+                         "the scale stage must be a multiplication by the conversion factor 2^n_frac"))
+        return None
+    sides = [e3.left, e3.right]
+    fidx = [i for i, s_ in enumerate(sides) if isinstance(peel(s_)[0], ast.Call) and prog.resolve_call(f, peel(s_)[0]) == fac.qualname]
+    if len(fidx) != 1:
+        problems.append(("the scale factor comes from the conversion-factor helper", "scale product %s" % src(e3)[:110], None))
+        return None
+    fcall = peel(sides[fidx[0]])[0]
+    a = sides[1 - fidx[0]]
+    out["factor_call"] = fcall
+    a0, casts3 = peel(a)
+    out["input_casts"] = casts3
+    if part is not None:
+        # np.vectorize(lambda v: v.real)(X)
+        got = None
+        if isinstance(a0, ast.Call) and isinstance(a0.func, ast.Call) and dotted(a0.func.func) == "np.vectorize" and a0.func.args \
+                and isinstance(a0.func.args[0], ast.Lambda) and isinstance(a0.func.args[0].body, ast.Attribute) and len(a0.args) == 1:
+            got = a0.func.args[0].body.attr
+            a0, c4 = peel(a0.args[0])
+        elif isinstance(a0, ast.Attribute) and a0.attr in ("real", "imag"):
+            got = a0.attr
+            a0, c4 = peel(a0.value)
+        if got != part:
+            problems.append(("the %s component is quantized from the input's %s part" % (part, part), "component %s" % src(a)[:90], None))
+            return None
+    okin = isinstance(a0, ast.Subscript) and isinstance(a0.value, ast.Call) and prog.resolve_call(f, a0.value) == fmt.qualname \
+        and isinstance(a0.slice, ast.Constant) and a0.slice.value == 0
+    if not okin:
+        inner = [c for c in calls_in(a0) if prog.resolve_call(f, c) == fmt.qualname]
+        problems.append(("the scaled quantity is the normalised input value itself", "scaled operand %s" % src(a)[:110],
+                         "an operation is applied to the input before scaling" if inner else "the input does not come from the input normaliser"))
+        return None
+    fmt_call = a0.value
+    out["fmt_call"] = fmt_call
+    # normaliser is called with the funnel's own val / raw parameters
+    vp = actual(fmt_call, fmt, [p for p in fmt.params if p != "self"][0])
+    rp = actual(fmt_call, fmt, "raw")
+    if dotted(vp) != "val" or dotted(rp) != "raw":
+        problems.append(("the normaliser receives the funnel's own val and raw arguments", "call %s" % src(fmt_call)[:100], None))
+        return None
+    # factor is computed from the raw flag that the normaliser returned
+    ra = actual(fcall, fac, "raw")
+    okraw = isinstance(ra, ast.Subscript) and isinstance(ra.value, ast.Call) and same_expr(ra.value, fmt_call) \
+        and isinstance(ra.slice, ast.Constant) and ra.slice.value == 2
+    if not okraw:
+        problems.append(("the conversion factor is selected by the raw flag returned by the normaliser", "factor call %s" % src(fcall)[:100],
+                         "Fxp inputs are re-scaled to raw codes by the normaliser; using the caller's raw flag scales them twice"))
+        return None
+    return out
+
+
+def store_pipeline(ck, rule, want_bounds=True):
+    """C01.R2 (+C02.R2/R6, C04.R1 argument roles): on every normal path of set_val exactly one store to the
+    value buffer, whose provenance is FORMAT -> SCALE -> RND -> OVF -> CAST* -> STORE."""
+    prog = ck.prog
+    f = A.funnel(prog)
+    h, rnd, fmt, fac = A.ovf_handler(prog), A.rounder(prog), A.normaliser(prog), A.factor(prog)
+    from .flags import handler_roles_quiet
+    roles = handler_roles_quiet(prog)
+    pfs = fpaths(prog, f)
+    ck.saw(f, paths=len(pfs))
+    mn_o, mx_o = oracle_bounds()
+    seen = set()
+    n_real = n_cplx = 0
+    words = set()
+
+    def bad(what, construct, node, detail=None, r=rule):
+        k = (r, what, construct)
+        if k not in seen:
+            seen.add(k)
+            ck.bad(r, f, what, construct, node, detail)
+
+    for pf in pfs:
+        if pf.end == "raise":
+            continue
+        vst = [st for st in pf.stores if st.path == "self.val"]
+        if len(vst) != 1:
+            bad("every normal path of set_val stores the value exactly once", "%d stores to the value buffer on a normal path" % len(vst),
+                f.node, "path guards: %s" % _ctrl(pf.guards)[:8])
+            continue
+        st = vst[0]
+        V = st.value
+        e0, _ = peel(V)
+        problems = []
+        if isinstance(e0, ast.BinOp) and isinstance(e0.op, ast.Add) and _is_imag(e0.right):
+            re_ = match_pipeline(prog, f, e0.left, roles, h, rnd, fmt, fac, problems, part="real")
+            im_ = match_pipeline(prog, f, _is_imag(e0.right), roles, h, rnd, fmt, fac, problems, part="imag") if re_ else None
+            pieces = [p for p in (re_, im_) if p]
+            if re_ and im_:
+                n_cplx += 1
+                words.add("STORE COMBINE (CAST* OVF RND SCALE PART FORMAT){2}")
+        else:
+            one = match_pipeline(prog, f, V, roles, h, rnd, fmt, fac, problems)
+            pieces = [one] if one else []
+            if one:
+                n_real += 1
+                words.add("STORE CAST* OVF RND SCALE CAST* FORMAT")
+        for what, construct, detail in problems:
+            bad(what, construct, st.stmt, detail)
+        if problems:
+            continue
+        # index store is a write into the existing buffer
+        if isinstance(st.target, ast.Subscript):
+            if dotted(st.sub) != "index":
+                bad("indexed store uses the caller's index", "self.val[%s]" % src(st.sub), st.stmt)
+        # bounds (C02.R2): handler is given the format's own MIN / MAX
+        if want_bounds:
+            asg = guard_assignment(pf.guards)
+            for pc in pieces:
+                for role, arg, orc in (("minimum", pc["min"], mn_o), ("maximum", pc["max"], mx_o)):
+                    try:
+                        t = mkterm(arg).subst(asg)
+                    except NotATerm as e:
+                        ck.unsure("C02.R2", f, "bound term is a format formula", st.stmt, str(e))
+                        continue
+                    o = orc.subst(asg)
+                    ck.saw(terms=1)
+                    if t != o:
+                        w = witness(t, o)
+                        bad("the overflow stage is given the format's own %s code" % role,
+                            "%s = %s, expected %s" % (role, t.show(), o.show()), st.stmt,
+                            {"witness": w, "meaning": "codes are clamped/wrapped/flagged against a wrong bound"}, r="C02.R2")
+    if not [k for k in seen if k[0] == rule]:
+        ck.ok(rule, f, "stage order holds on all normal paths: %d real-valued, %d complex stores (%s)" % (n_real, n_cplx, "; ".join(sorted(words))))
+    if want_bounds and not [k for k in seen if k[0] == "C02.R2"]:
+        ck.ok("C02.R2", f, "MIN/MAX handed to the overflow stage equal the statement's bounds on every path (signed and unsigned)")
+    if n_real == 0:
+        raise AnalysisError("no real-valued store path recognised in set_val")
+    ck.extra["set_val_paths"] = len(pfs)
+    ck.extra["exhaustive"] = True
+    return roles
+
+
+def _is_imag(e):
+    """1j * X  ->  X"""
+    if isinstance(e, ast.BinOp) and isinstance(e.op, ast.Mult):
+        for a, b in ((e.left, e.right), (e.right, e.left)):
+            if isinstance(a, ast.Constant) and isinstance(a.value, complex) and a.value == 1j:
+                return b
+    return None
+
+
+def handler_call_sites(ck, rule, roles):
+    """every call of the overflow handler anywhere passes the rounded value (C04.R1 'rounded element')."""
+    prog = ck.prog
+    h, rnd = A.ovf_handler(prog), A.rounder(prog)
+    n = 0
+    for f in prog.all_funcs():
+        if f.module != "objects":
+            continue
+        for c in calls_in(f.node):
+            if prog.resolve_call(f, c) == h.qualname:
+                n += 1
+                if f.qualname != A.funnel(prog).qualname:
+                    ck.bad(rule, f, "the overflow handler is called only from the write funnel", "%s calls %s" % (f.qualname, h.name), c)
+    ck.check(n >= 1, rule, h, "the overflow handler has call sites (%d) and all are in set_val, where its value argument is the rounding result on every path" % n,
+             "overflow handler is never called")
+    # value argument is RND result: established per path
+    f = A.funnel(prog)
+    bad_ = 0
+    for pf in fpaths(prog, f):
+        for ce in pf.calls:
+            if prog.resolve_call(f, ce.raw) == h.qualname:
+                v = actual(ce.call, h, roles["val"])
+                e, casts = peel(v) if v is not None else (None, [])
+                if not (isinstance(e, ast.Call) and prog.resolve_call(f, e) == rnd.qualname):
+                    bad_ += 1
+                    ck.bad(rule, f, "flags are decided on the rounded value", "handler value argument %s" % (src(v)[:100] if v is not None else None), ce.stmt,
+                           "overflow/underflow must be tested on ROUND(v*2^n_frac), not on the unrounded or the clamped value")
+                    return
+    ck.saw(f, calls=n)
+
+
+def factor_rule(ck, rule):
+    """C01.R3: the conversion factor is 1 when raw, 2^n_frac otherwise, on every branch (incl. negative n_frac)."""
+    prog = ck.prog
+    fac = A.factor(prog)
+    pfs = fpaths(prog, fac)
+    ck.saw(fac, paths=len(pfs))
+    raw = Term.bvar("raw")
+    oracle = ite(raw, Term.const(1), exp2(Term.var("n_frac")))
+    okn = 0
+    for pf in pfs:
+        if pf.end != "return" or pf.ret is None:
+            if pf.end != "raise":
+                ck.bad(rule, fac, "the conversion-factor helper returns a factor on every path", "path falls off without a value", fac.node)
+            continue
+        asg = guard_assignment(pf.guards)
+        try:
+            t = mkterm(pf.ret).subst(asg)
+        except NotATerm as e:
+            ck.unsure(rule, fac, "factor is a power of two in n_frac", pf.ret_stmt, "%s: %s" % (e, src(pf.ret)))
+            continue
+        o = oracle.subst(asg)
+        ck.saw(terms=1)
+        if t == o:
+            okn += 1
+        else:
+            ck.bad(rule, fac, "conversion factor equals 2^n_frac (1 for raw codes)", "under %s returns %s, expected %s" % (_ctrl(pf.guards), t.show(), o.show()),
+                   pf.ret_stmt, {"witness": witness(t, o)})
+    if okn:
+        ck.ok(rule, fac, "all %d return branches normalise to ite(raw, 1, 2^n_frac)" % okn)
+
+
+def rounding_table(ck, rule_dir, rule_exh, rule_pass):
+    """C05.R1-R3 on the rounding dispatcher."""
+    prog = ck.prog
+    rnd = A.rounder(prog)
+    vp = [p for p in rnd.params if p != "self"][0]
+    mp = "method"
+    pfs = fpaths(prog, rnd)
+    ck.saw(rnd, paths=len(pfs))
+    cfg_list = config_list(prog, "_rounding_list")
+    handled = {}
+    passthrough_seen = False
+    for pf in pfs:
+        keys_true = []
+        for g in pf.guards:
+            ks = _mode_keys(g[0], mp)
+            if ks is not None and g[1]:
+                keys_true = ks
+        # which guards are True on this path
+        if pf.end == "raise":
+            continue
+        if pf.end != "return" or pf.ret is None:
+            ck.bad(rule_exh, rnd, "the rounding dispatcher returns a value on every non-raising path", "path without return value", rnd.node)
+            continue
+        e, casts = peel(pf.ret)
+        true_guards = [g for g in pf.guards if g[1]]
+        if not keys_true:
+            # pass-through branch(es): must be guarded by an integer/object carrier test only
+            if dotted(e) == vp and true_guards:
+                g = true_guards[-1]
+                bad_disj = _non_integer_disjuncts(g[0], vp)
+                if _mode_none_guard(g[0], mp):
+                    ck.ok(rule_pass, rnd, "identity branch for method None/'' (unreachable: Config.rounding rejects both)", g[3], nontrivial=False)
+                    continue
+                passthrough_seen = True
+                ck.check(not bad_disj, rule_pass, rnd, "values are passed through unrounded only when they are integers (int / integer dtype / object carrier)",
+                         "pass-through guard contains %s" % [src(x) for x in bad_disj], g[3],
+                         "non-integer values would be stored without the configured rounding")
+            elif dotted(e) == vp:
+                ck.bad(rule_pass, rnd, "unrounded pass-through is guarded by an integer test", "unconditional identity return", pf.ret_stmt)
+            else:
+                ck.bad(rule_dir, rnd, "every rounding primitive is selected by a mode name", "return %s without a mode guard" % src(pf.ret)[:80], pf.ret_stmt)
+            continue
+        for K in keys_true:
+            want = ROUND_TABLE.get(K)
+            if want is None:
+                ck.note("rounding dispatcher handles unknown mode %r" % K)
+                continue
+            fn = dotted(e.func) if isinstance(e, ast.Call) else None
+            arg_ok = isinstance(e, ast.Call) and len(e.args) >= 1 and dotted(peel(e.args[0])[0]) == vp and len(e.args) == 1 and not e.keywords
+            if fn in want and arg_ok:
+                handled[K] = fn
+                ck.ok(rule_dir, rnd, "mode %r -> %s(%s)" % (K, fn, vp), pf.ret_stmt)
+            elif fn in ROUND_PRIMS and arg_ok:
+                handled[K] = fn
+                ck.bad(rule_dir, rnd, "mode %r rounds in its documented direction (%s)" % (K, "/".join(sorted(want))),
+                       "%r -> %s" % (K, fn), pf.ret_stmt, "wrong rounding primitive for this mode")
+            else:
+                handled[K] = src(e)
+                ck.bad(rule_dir, rnd, "mode %r applies its rounding primitive directly to the value (%s)" % (K, "/".join(sorted(want))),
+                       "%r -> %s" % (K, src(pf.ret)[:90]), pf.ret_stmt,
+                       "not one of the accepted spellings; e.g. floor(v+0.5) breaks ties-to-even, astype(int) truncates")
+    for K in cfg_list:
+        ck.check(K in handled, rule_exh, rnd, "configured rounding mode %r has a branch in the dispatcher" % K,
+                 "mode %r accepted by Config.rounding but not handled by %s" % (K, rnd.name))
+    # unknown names raise
+    has_raise = any(pf.end == "raise" for pf in pfs)
+    ck.check(has_raise, rule_exh, rnd, "an unknown rounding name raises", "dispatcher has no raising branch")
+    if not passthrough_seen:
+        ck.note("rounding dispatcher has no integer pass-through branch (integers rely on primitives being the identity on integers)")
+    return handled
+
+
+def _mode_keys(test, mp):
+    """['around'] for `method == 'around'`, also membership in a literal tuple"""
+    if isinstance(test, ast.Compare) and len(test.ops) == 1 and dotted(test.left) == mp:
+        c = test.comparators[0]
+        if isinstance(test.ops[0], ast.Eq) and const_str(c) is not None:
+            return [const_str(c)]
+        if isinstance(test.ops[0], ast.In) and isinstance(c, (ast.Tuple, ast.List, ast.Set)):
+            ks = [const_str(x) for x in c.elts]
+            if all(k is not None for k in ks):
+                return ks
+    return None
+
+
+def _mode_none_guard(test, mp):
+    vals = test.values if isinstance(test, ast.BoolOp) and isinstance(test.op, ast.Or) else [test]
+    for v in vals:
+        if isinstance(v, ast.Compare) and len(v.ops) == 1 and dotted(v.left) == mp:
+            c = v.comparators[0]
+            if isinstance(v.ops[0], ast.Is) and isinstance(c, ast.Constant) and c.value is None:
+                continue
+            if isinstance(v.ops[0], ast.Eq) and isinstance(c, ast.Constant) and c.value == "":
+                continue
+        return False
+    return True
+
+
+def _non_integer_disjuncts(test, vp):
+    vals = test.values if isinstance(test, ast.BoolOp) and isinstance(test.op, ast.Or) else [test]
+    bad = []
+    for v in vals:
+        ok = False
+        if isinstance(v, ast.Call):
+            fn = dotted(v.func)
+            if fn == "isinstance" and len(v.args) == 2 and dotted(v.args[0]) == vp:
+                ts = v.args[1].elts if isinstance(v.args[1], ast.Tuple) else [v.args[1]]
+                ok = all(dotted(t) in ("int", "np.integer", "np.int64", "np.int32", "np.uint64", "bool") for t in ts)
+            elif fn == "np.issubdtype" and len(v.args) == 2:
+                ty = dotted(v.args[1])
+                a0 = v.args[0]
+                base = None
+                if isinstance(a0, ast.Attribute) and a0.attr == "dtype":
+                    b, _ = peel(a0.value)
+                    base = dotted(b)
+                ok = ty in ("np.integer", "np.object_", "object", "np.signedinteger", "np.unsignedinteger", "int") and base == vp
+        if not ok:
+            bad.append(v)
+    return bad
+
+
+def config_list(prog, name):
+    f = prog.func("objects.Config.%s" % name, required=False)
+    if f is None:
+        raise AnalysisError("Config.%s not found" % name)
+    for n in ast.walk(f.node):
+        if isinstance(n, ast.Return) and isinstance(n.value, (ast.List, ast.Tuple)):
+            vals = [const_str(x) for x in n.value.elts]
+            if all(v is not None for v in vals):
+                return vals
+    raise AnalysisError("Config.%s is not a literal list" % name)
+
+
+def overflow_dispatch(ck, rule_clamp, rule_wrapsel, roles):
+    """C02.R6 clamp roles; C03.R2 wrap selection with the destination's (signed, n_word); exhaustive over Config._overflow_list."""
+    prog = ck.prog
+    h = A.ovf_handler(prog)
+    pfs = fpaths(prog, h)
+    modes = config_list(prog, "_overflow_list")
+    handled = {}
+    wrapf = prog.func("utils.wrap", required=False)
+    for pf in pfs:
+        key = None
+        for g in pf.guards:
+            t = g[0]
+            if isinstance(t, ast.Compare) and len(t.ops) == 1 and isinstance(t.ops[0], ast.Eq) and dotted(t.left) in ("self.config.overflow", "self.overflow") \
+                    and const_str(t.comparators[0]) is not None and g[1]:
+                key = const_str(t.comparators[0])
+        if pf.end == "raise":
+            continue
+        if key is None:
+            ck.bad(rule_clamp, h, "every non-raising path of the overflow handler is selected by an overflow mode", "return without mode guard", pf.ret_stmt or h.node)
+            continue
+        if pf.ret is None:
+            ck.bad(rule_clamp, h, "the overflow handler returns the treated value", "path returns nothing under %r" % key, h.node)
+            continue
+        e, casts = peel(pf.ret)
+        if key == "saturate":
+            res = _clamp_form(prog, h, e)
+            if res is None:
+                ck.bad(rule_clamp, h, "saturate returns clamp(value, MIN, MAX)", "saturate branch returns %s" % src(pf.ret)[:90], pf.ret_stmt,
+                       "not a recognised clamp of the handler's value between its bounds")
+            else:
+                x, lo, hi = res
+                good = dotted(peel(x)[0]) == roles["val"] and dotted(lo) == roles["min"] and dotted(hi) == roles["max"]
+                ck.check(good, rule_clamp, h, "saturate clamps the rounded value to [MIN, MAX] (argument roles)",
+                         "clamp(%s, lo=%s, hi=%s)" % (src(x)[:40], src(lo), src(hi)), pf.ret_stmt,
+                         "exchanged or wrong bounds: out-of-range inputs are stored as the opposite bound")
+                if any(is_int_cast(c) for c in peel(x)[1]):
+                    ck.bad(rule_clamp, h, "no narrowing cast precedes the clamp", "clamp argument %s" % src(x)[:80], pf.ret_stmt)
+            handled[key] = True
+        elif key == "wrap":
+            okw = isinstance(e, ast.Call) and wrapf is not None and prog.resolve_call(h, e) == wrapf.qualname
+            if not okw:
+                ck.bad(rule_wrapsel, h, "wrap mode reduces the value with the modular-wrap routine", "wrap branch returns %s" % src(pf.ret)[:90], pf.ret_stmt)
+            else:
+                x = actual(e, wrapf, "x")
+                sg = actual(e, wrapf, "signed")
+                nw = actual(e, wrapf, "n_word")
+                good = x is not None and dotted(peel(x)[0]) == roles["val"] and dotted(sg) == "self.signed" and dotted(nw) == "self.n_word"
+                ck.check(good, rule_wrapsel, h, "wrap is applied to the rounded value with the destination's own (signed, n_word)",
+                         "wrap(%s, signed=%s, n_word=%s)" % (src(x)[:40] if x is not None else None, src(sg) if sg is not None else None, src(nw) if nw is not None else None),
+                         pf.ret_stmt, "wrapping with another width/signedness stores a code that is not congruent mod 2^n_word or is out of range")
+            handled[key] = True
+        else:
+            handled[key] = True
+            ck.note("overflow handler has a branch for mode %r" % key)
+    for m in modes:
+        ck.check(m in handled, rule_wrapsel if m == "wrap" else rule_clamp, h, "configured overflow mode %r has a branch in the handler" % m,
+                 "mode %r accepted by Config.overflow but not handled" % m)
+    ck.check(any(pf.end == "raise" for pf in pfs), rule_clamp, h, "an unknown overflow mode raises", "no raising branch")
+    # utils.clip body
+    clipf = prog.func("utils.clip", required=False)
+    if clipf is not None:
+        ok = False
+        for n in ast.walk(clipf.node):
+            if isinstance(n, ast.Return) or isinstance(n, ast.Assign):
+                v = n.value
+                if v is None:
+                    continue
+                r = _clamp_form(prog, clipf, peel(v)[0], allow_calls=False)
+                if r is not None:
+                    x, lo, hi = r
+                    ps = clipf.params
+                    ok = dotted(peel(x)[0]) == ps[0] and dotted(lo) == ps[1] and dotted(hi) == ps[2]
+                    if not ok:
+                        ck.bad(rule_clamp, clipf, "utils.clip(x, lo, hi) computes max(lo, min(hi, x))", "body %s" % src(v)[:80], n,
+                               "clamp with exchanged roles returns the wrong bound")
+                    break
+        else:
+            ck.bad(rule_clamp, clipf, "utils.clip body is a clamp", "no max/min nest found in utils.clip", clipf.node)
+        if ok:
+            ck.ok(rule_clamp, clipf, "utils.clip(x, lo, hi) normalises to max(lo, min(hi, x))")
+
+
+def _clamp_form(prog, f, e, allow_calls=True):
+    """(x, lo, hi) for np.clip(x,lo,hi) / utils.clip(x,lo,hi) / max(lo,min(hi,x)) / min(hi,max(lo,x)) / np.minimum/maximum nests"""
+    if not isinstance(e, ast.Call):
+        return None
+    fn = dotted(e.func)
+    if allow_calls and fn in ("np.clip", "utils.clip", "utils.int_clip"):
+        names = {"np.clip": ("a", "a_min", "a_max"), "utils.clip": ("x", "val_min", "val_max"), "utils.int_clip": ("x", "val_min", "val_max")}[fn]
+        args = list(e.args) + [None] * 3
+        x, lo, hi = args[0], args[1], args[2]
+        for k in e.keywords:
+            if k.arg in (names[0],):
+                x = k.value
+            if k.arg in (names[1], "min"):
+                lo = k.value
+            if k.arg in (names[2], "max"):
+                hi = k.value
+        if x is None or lo is None or hi is None:
+            return None
+        return x, lo, hi
+    if fn in ("max", "np.maximum") and len(e.args) == 2:
+        for lo, inner in ((e.args[0], e.args[1]), (e.args[1], e.args[0])):
+            if isinstance(inner, ast.Call) and dotted(inner.func) in ("min", "np.minimum") and len(inner.args) == 2:
+                # max(lo, min(hi, x)) : which of inner args is x? the one that is not a plain bound param... decide by position convention: (hi, x)
+                a, b = inner.args
+                return _pick_x(a, b, lo, outer="max")
+    if fn in ("min", "np.minimum") and len(e.args) == 2:
+        for hi, inner in ((e.args[0], e.args[1]), (e.args[1], e.args[0])):
+            if isinstance(inner, ast.Call) and dotted(inner.func) in ("max", "np.maximum") and len(inner.args) == 2:
+                a, b = inner.args
+                r = _pick_x(a, b, hi, outer="min")
+                if r:
+                    x, lo_, hi_ = r
+                    return x, lo_, hi_
+    return None
+
+
+def _pick_x(a, b, outer_bound, outer):
+    """inner min/max has two args: one is the other bound, one the value. The value is recognised as the
+    argument that is wrapped (int(x), np cast) or named x / new_val / value-like; otherwise the second."""
+    def is_val(n):
+        e, _ = peel(n)
+        if isinstance(e, ast.Call) and dotted(e.func) in ("int", "float") and e.args:
+            e = e.args[0]
+        d = dotted(e)
+        return d in ("x", "new_val", "val", "value", "v", "a")
+    if is_val(a) and not is_val(b):
+        x, other = a, b
+    elif is_val(b) and not is_val(a):
+        x, other = b, a
+    else:
+        x, other = b, a
+    if isinstance(x, ast.Call) and dotted(x.func) in ("int", "float") and x.args:
+        x = x.args[0]
+    if outer == "max":
+        return x, outer_bound, other       # max(lo, min(hi, x))
+    return x, other, outer_bound           # min(hi, max(lo, x))
